@@ -280,6 +280,7 @@ func (g *G) genProps() core.StepProps {
 }
 
 func stepComponent(g *G, n int, opts map[string]string) *Out {
+	g.mode = opts["mode"]
 	o := newOut("Corr.StepCorr", "scase")
 	var replay []*stepCase
 	if path := opts["replay"]; path != "" {
@@ -348,7 +349,7 @@ func stepComponent(g *G, n int, opts map[string]string) *Out {
 			}
 		}
 		failed := nd != nil && nd.Action != nil && (nd.Action.P.Term == "throw" || nd.Action.P.Term == "nonobject" ||
-			nd.Action.P.Term == "emitbad" || nd.Action.P.Term == "loop")
+			nd.Action.P.Term == "emitbad" || nd.Action.P.Term == "retbad" || nd.Action.P.Term == "loop")
 		emits := false
 		if nd != nil && nd.Action != nil {
 			for _, op := range nd.Action.P.Ops {
@@ -557,6 +558,7 @@ type walkCase struct {
 }
 
 func walkComponent(g *G, n int, opts map[string]string) *Out {
+	g.mode = opts["mode"]
 	o := newOut("Corr.StepCorr", "wcase")
 	var replay []*walkCase
 	if path := opts["replay"]; path != "" {
@@ -611,6 +613,24 @@ func walkComponent(g *G, n int, opts map[string]string) *Out {
 		}
 		props := g.genProps()
 		loop := as.hasLoop()
+		if replay == nil && ctl != nil && g.chance(0.3) {
+			// adaptive breakpoint: stop at a node this very walk reaches after its
+			// first stride (so that messages have been consumed when it fires)
+			dry := runWalk(spec, st.core(), deepCopy(msgs, nil).([]interface{}), &core.Control{Limit: limit}, props, loop)
+			if dry.W != nil {
+				var cands []string
+				for i, sd := range dry.W.Strides {
+					if i >= 1 && sd.To != nil && sd.To.Node != st.Node {
+						cands = append(cands, sd.To.Node)
+					}
+				}
+				if len(cands) > 0 {
+					bp = &bpSpec{Kind: "node", Arg: g.pick(cands)}
+					ctl = &core.Control{Limit: limit, Breakpoints: bp.breakpoints()}
+					o.count("adaptive-breakpoint")
+				}
+			}
+		}
 		r1 := runWalk(spec, st.core(), deepCopy(msgs, nil).([]interface{}), ctl, props, loop)
 		r2 := runWalk(spec, st.core(), deepCopy(msgs, g).([]interface{}), ctl, props, loop)
 		// split comparison (C05): every split point, when no walk is cut short
@@ -686,6 +706,16 @@ func walkComponent(g *G, n int, opts map[string]string) *Out {
 			nontrivial = emitted
 		case "c07", "c06":
 			nontrivial = failedAny
+		case "c18":
+			nontrivial = false
+			for k := range st.Bs {
+				if strings.HasSuffix(k, "!") && nstrides >= 2 {
+					nontrivial = true
+				}
+			}
+		}
+		if r1.W != nil && r1.W.Stopped == "BreakpointReached" && len(r1.W.Strides) > 0 {
+			o.count("breakpoint-after-strides")
 		}
 		o.add(term, canon(as)+canon(st)+canon(msgs)+fmt.Sprint(limit)+canon(bp), nontrivial, sample)
 	}
